@@ -619,6 +619,8 @@ func (env *Env) refOf(v SV) *Term {
 		return v.V
 	case KIface:
 		return ifaceVal(v.V)
+	case KSlice:
+		return sliceArr(v.V) // the backing array
 	}
 	specFail("ghost field on a value that is not a reference (%s)", v.V.Sort.Name)
 	return nil
